@@ -193,9 +193,11 @@ func checks() map[string]CheckDef {
 					"C07/request-stops-at-the-next-checkpoint", "C07/after-the-last-checkpoint-requests-are-unbounded", "C07/matching-checkpoint-advances-sync-from-it", "C07/exactly-one-follow-up-request"}},
 			{Pkg: "internal/transports/p2p/peer", Func: "HarnessCheckpointCursor", Quick: [][]int64{{0}, {1}, {2}, {3}}, Thorough: [][]int64{{0}, {1}, {2}, {3}, {4}},
 				Labels: []string{"C07x/cursor-starts-at-first-checkpoint-above-tip", "C07x/matching-header-advances-to-exactly-the-next-checkpoint", "C07x/contradicting-or-skipping-header-refused", "C07x/after-the-last-checkpoint-unbounded", "C07x/no-checkpoint-left-means-unbounded"}},
+			{Pkg: "internal/transports/p2p/peer", Func: "HarnessExpHeadersBatch", Quick: [][]int64{{1, 1}, {2, 1}, {2, 2}, {3, 1}}, Thorough: [][]int64{{3, 2}, {4, 1}, {3, 3}},
+				Labels: []string{"C07x/offending-peer-is-disconnected", "C07x/nothing-submitted-after-the-offending-header", "C07x/nothing-requested-from-the-offending-peer", "C07x/honest-batch-keeps-the-peer", "C07x/every-header-of-an-honest-batch-is-submitted"}},
 		},
 		Bounds:  []string{"storage: the C01 step with 1..2 arbitrary forbidden hashes (a forbidden hash is never stored; INV-H incl. 'no stored forbidden hash' is preserved, so its descendants can only be orphans)", "default engine: handleHeadersMsg on batches of m headers (quick m<=3, thorough m<=4) with an arbitrary outcome per header (stored on the longest chain / stored elsewhere / known / forbidden / save failure), arbitrary heights and hashes, checkpoint lists of n<=3 ascending arbitrary checkpoints and every cursor position", "checkpoint search (both engines): every list of n ascending checkpoints (n<=5), every height"},
-		Outside: []string{"'still converges afterwards' (C06)", "ban bookkeeping and peer admission (C18)", "the experimental engine's message loop around VerifyAndAdvance (sockets, goroutines)", "serving endpoints never return a forbidden header because none is ever stored (INV-H), not checked per endpoint"},
+		Outside: []string{"'still converges afterwards' (C06)", "ban bookkeeping and peer admission (C18)", "the experimental engine's goroutines and sockets (its Peer.handleHeadersMsg step IS checked on batches of m<=3 (quick) / 4 (thorough) headers with arbitrary outcomes and n<=3 checkpoints)", "serving endpoints never return a forbidden header because none is ever stored (INV-H), not checked per endpoint"},
 		Stubs:   []string{"service.Chains replaced by a stub returning an arbitrary outcome per header (each outcome is one C01 allows)", "service.Headers stub supplies the locator", "peer: a real peerpkg.Peer marked connected with a no-op connection; queued messages and Disconnect are observed through in-package helpers", "SyncManager.logSyncState (logging) is a no-op"},
 	})
 	add(CheckDef{
@@ -212,6 +214,8 @@ func checks() map[string]CheckDef {
 				Labels: []string{"C06/announced-unknown-block-is-requested", "C06/answer-to-our-own-request-is-processed"}},
 			{Pkg: "transports/p2p/p2psync", Func: "HarnessSyncInvariantStep", Quick: [][]int64{{1, 0, 0}, {1, 1, 0}, {2, 0, 1}}, Thorough: [][]int64{{2, 1, 0}, {2, 2, 0}, {3, 0, 1}},
 				Labels: []string{"C06/sync-invariant-preserved-by-every-event"}},
+			{Pkg: "internal/transports/p2p/peer", Func: "HarnessExpHeadersBatch", Quick: [][]int64{{1, 1}, {2, 1}, {2, 2}, {3, 1}}, Thorough: [][]int64{{3, 2}, {4, 1}, {3, 3}},
+				Labels: []string{"C06x/no-progress-no-request", "C06x/progress-is-followed-by-exactly-one-request", "C06x/follow-up-carries-the-locator-and-the-next-checkpoint"}},
 			{Pkg: "transports/p2p/p2psync", Func: "HarnessStalledSyncPeer", Quick: [][]int64{{1, 0}, {0, 1}}, Thorough: [][]int64{{2, 0}, {3, 0}, {1, 1}},
 				Labels: []string{"C06/stalled-sync-peer-is-disconnected", "C06/a-sync-peer-is-chosen-after-a-stall", "C06/sync-peer-within-the-stall-limit-or-caught-up-is-kept"}},
 			{Pkg: "transports/p2p/p2psync", Func: "HarnessHeadersBatch", Quick: [][]int64{{2, 1}, {2, 2}}, Thorough: [][]int64{{3, 2}, {4, 1}},
@@ -219,7 +223,7 @@ func checks() map[string]CheckDef {
 		},
 		Bounds: []string{"inductive step: the invariant 'a sync peer is a registered peer with its bookkeeping and headers are expected; whenever a registered candidate is strictly ahead of our tip there is a sync peer; while a request of ours to a registered peer is unanswered headers are expected' is preserved by one arbitrary event (peer connects / leaves, headers from any peer with any outcome, inv from any peer, periodic check with any idle time) from every manager state of m registered peers (quick m<=2, thorough m<=3) satisfying it", "C06 is claimed as step obligations of the default sync engine, not as a liveness proof: P1 choice of the sync peer and the first request (m<=3 candidate peers connecting in turn with arbitrary best heights, arbitrary own tip, n<=2 arbitrary ascending checkpoints or checkpoints disabled, manager built by the real constructor); P2 an answer that makes progress keeps the peer and is followed by exactly one request from the new tip; P3 batch continuation incl. checkpoint hand-over (HarnessHeadersBatch, shared with C07); P4 a block announced by inv (by the sync peer or by another connected peer, the node being current) after an answer that brought nothing new is requested from the announcer and the request really reaches the peer's send queue (through the real duplicate-request filter of peer.Peer); P5 when the sync peer leaves, another candidate takes over and is asked; P7 with no sync peer ever chosen (all peers behind) a caught-up peer's inv is followed by a request whose answer is processed, not dropped as unrequested; P6 the periodic check disconnects a sync peer that delivered nothing for more than the stall limit (any idle time up to 2^20 s except within 10 s of the 180 s limit) while we are below its height and asks another candidate, and keeps one within the limit or caught up",
 			"the convergence argument built from the steps (each answered request either adds headers or ends at the peer's tip; every such state has exactly one outstanding request or is current) is an argument, not solver-checked"},
-		Outside: []string{"the ticker and the blockHandler select loop, sockets and goroutines; the network-speed half of the periodic check (bytes received per tick)", "the experimental engine (transports/p2p/peer + network), whose sync loop is goroutines over sockets", "reorganisation to a more-work chain is C01/C03 (storage) - the engine only has to keep asking", "headers arriving from a peer that is not the sync peer", "map iteration order in startSync is insertion order in the encoder (the choice among equal candidates is by crypto/rand, modelled as arbitrary)"},
+		Outside: []string{"the ticker and the blockHandler select loop, sockets and goroutines; the network-speed half of the periodic check (bytes received per tick)", "the experimental engine's goroutines and sockets (its headers-batch step IS checked: HarnessExpHeadersBatch - progress is followed by exactly one request carrying the locator and the next checkpoint)", "reorganisation to a more-work chain is C01/C03 (storage) - the engine only has to keep asking", "headers arriving from a peer that is not the sync peer", "map iteration order in startSync is insertion order in the encoder (the choice among equal candidates is by crypto/rand, modelled as arbitrary)"},
 		Stubs:   []string{"service.Headers replaced by a stub with an arbitrary tip (height, hash, IsCurrent)", "service.Chains stub returning the stated outcome per header", "real peerpkg.Peer objects marked connected with a no-op connection; queued messages and Disconnect observed through in-package helpers", "crypto/rand.Int returns an arbitrary value in [0, max)", "SyncManager.logSyncState (logging) is a no-op"},
 	})
 	add(CheckDef{
